@@ -2,7 +2,7 @@
    The charset of the file is an oracle: [dec] decodes a byte string, [enc] encodes one character. *)
 From Coq Require Import NArith List Bool.
 From I18n Require Import Lib.Outcome Model.PoUnescape Model.PoParser Spec.PoSyntax Proofs.PoUnescape Proofs.PoStrings
-  Proofs.PoParser Proofs.PoWitness Proofs.PoLex.
+  Proofs.PoParser Proofs.PoWitness Proofs.PoLex Model.PoLexer Proofs.PoOpen Proofs.PoDetect Proofs.PoLoad Proofs.PoUnescapeTotal.
 Import ListNotations.
 Local Open Scope N_scope.
 
@@ -113,13 +113,113 @@ Theorem C10_lex_roundtrip_prev_obsolete : forall s, ends_word s -> trimmed ([35;
 Proof. exact lex_prev_obsolete. Qed.
 Print Assumptions C10_lex_roundtrip_prev_obsolete.
 
-(* the composition, with the remaining part of the lexer round trip as its hypothesis *)
-Theorem C10_load_render_partial : forall O ws c lines,
-  ascii_compatible (o_dec O) -> ~ In 34 ws -> scatalog_ok (o_dec O) c -> nplurals_le_10 c ->
-  ext (toks_catalog ws c) (lex_lines true lines) ->       (* MISSING LEMMA: every rendered line lexes to its token: proved above per line kind except #~ and #| prefixed lines; Codecs.open not composed *)
-  parse_lines O lines = Ok (mkPo (fst (catalog_value c)) (map (fun e => to_entry (tool_view e)) (snd (catalog_value c))) false).
-Proof. exact (fun O ws c lines => machine_roundtrip O ws c (lex_lines true lines)). Qed.
-Print Assumptions C10_load_render_partial.
+(* prefixed lines: #~ msgid ..., #~ ..., #~ msgstr[i] ..., #| msgid ..., #| ... *)
+Theorem C10_lex_roundtrip_obsolete_keyword : forall dec y kw osep sep c,
+  kw_of y = Some kw -> sep_str_ok osep -> all_space sep -> sep <> [] -> chunk_ok dec c ->
+  lex_line false ([35; 126] ++ osep ++ kw ++ sep ++ quoted c) = kw_tok true false y c.
+Proof. exact lex_obs_kw. Qed.
+Print Assumptions C10_lex_roundtrip_obsolete_keyword.
+Theorem C10_lex_roundtrip_obsolete_continuation : forall dec osep c, sep_str_ok osep -> chunk_ok dec c ->
+  lex_line false ([35; 126] ++ osep ++ quoted c) = cont_tok true false c.
+Proof. exact lex_obs_cont. Qed.
+Print Assumptions C10_lex_roundtrip_obsolete_continuation.
+Theorem C10_lex_roundtrip_obsolete_plural : forall osep i ws c, sep_str_ok osep -> i < 10 -> all_space ws -> ws <> [] ->
+  lex_line false ([35; 126] ++ osep ++ mx_cur i ws c) = LLine true false (AProc Ymx (mx_cur i ws c)).
+Proof. exact lex_obs_mx. Qed.
+Print Assumptions C10_lex_roundtrip_obsolete_plural.
+Theorem C10_lex_roundtrip_previous_keyword : forall y kw psep sep c,
+  prev_kw_of y = Some kw -> sep_str_ok psep -> all_space sep -> sep <> [] ->
+  lex_line false ([35; 124] ++ psep ++ kw ++ sep ++ quoted c) = kw_tok false true y c.
+Proof. exact lex_prev_kw. Qed.
+Print Assumptions C10_lex_roundtrip_previous_keyword.
+Theorem C10_lex_roundtrip_previous_continuation : forall psep c, sep_str_ok psep ->
+  lex_line false ([35; 124] ++ psep ++ quoted c) = cont_tok false true c.
+Proof. exact lex_prev_cont. Qed.
+Print Assumptions C10_lex_roundtrip_previous_continuation.
+
+(* every line of the rendered catalog lexes to its token (the lexer round trip, assembled) *)
+Theorem C10_lex_roundtrip : forall dec sp, seps_ok sp -> forall c, scatalog_ok dec c -> nplurals_le_10 c ->
+  Forall2 lexes (render_bodies sp c) (toks_catalog_x sp c).
+Proof. exact lexes_catalog. Qed.
+Print Assumptions C10_lex_roundtrip.
+
+(* (2c) THE COMPOSITION.  [render_bodies sp c] are the lines of catalog c (Spec/PoSyntax.v part 3: separators sp, every
+   string chunked and spelled in the escape family, comment lines of each kind, #~ and #~| prefixes for obsolete
+   entries); a file of the family pads each line with white space (the line end included) and inserts
+   white-space-only lines anywhere.  _POFileParser.parse on these lines yields the catalog: header comments, and for
+   every entry msgctxt, msgid, msgid_plural, msgstr / msgstr[i], flags, obsolete marker, previous msgid (None for an
+   obsolete entry: D22), references and extracted comments; no warning.  Guard: nplurals <= 10 (D9). *)
+Theorem C10_load_render : forall O sp c raws,
+  ascii_compatible (o_dec O) -> seps_ok sp -> scatalog_ok (o_dec O) c -> nplurals_le_10 c ->
+  file_of (render_bodies sp c) raws ->
+  parse_lines O raws = Ok (mkPo (fst (catalog_value c)) (map (fun e => to_entry (tool_view e)) (snd (catalog_value c))) false).
+Proof. exact load_render. Qed.
+Print Assumptions C10_load_render.
+
+Theorem C10_load_render_exact : forall O sp c raws,
+  ascii_compatible (o_dec O) -> seps_ok sp -> scatalog_ok (o_dec O) c -> nplurals_le_10 c -> no_obsolete_prev c ->
+  file_of (render_bodies sp c) raws ->
+  parse_lines O raws = Ok (mkPo (fst (catalog_value c)) (map to_entry (snd (catalog_value c))) false).
+Proof. exact load_render_exact. Qed.
+Print Assumptions C10_load_render_exact.
+
+(* (3) Codecs.open and detect_encoding.  The text of the file: every physical line (LF-free) followed by LF.
+   Codecs.open's LF-only splitting, comment normalisation and pending-comment buffering hand the parser a file of
+   the same line bodies (only white-space lines at the end are dropped), so the catalog is rebuilt from the TEXT. *)
+Theorem C10_codecs_open_file : forall bodies pls, file_of bodies pls -> Forall (fun l => ~ In 10 l) pls ->
+  Forall body_ok bodies -> bodies <> [] -> ~ tc_shaped (last bodies []) ->
+  file_of bodies (codecs_open_text (flat_map (fun l => l ++ [10]) pls)).
+Proof. exact codecs_open_file. Qed.
+Print Assumptions C10_codecs_open_file.
+
+Theorem C10_open_load_render : forall O sp c pls,
+  ascii_compatible (o_dec O) -> seps_ok sp -> scatalog_ok (o_dec O) c -> nplurals_le_10 c -> sc_entries c <> [] ->
+  file_of (render_bodies sp c) pls -> Forall (fun l => ~ In 10 l) pls ->
+  parse_lines O (codecs_open_text (flat_map (fun l => l ++ [10]) pls)) =
+  Ok (mkPo (fst (catalog_value c)) (map (fun e => to_entry (tool_view e)) (snd (catalog_value c))) false).
+Proof. exact open_load_render. Qed.
+Print Assumptions C10_open_load_render.
+
+(* detect_encoding: lines before the declaration do not contain Content-Type:, the declaration
+   a Content-Type: b _charset=NAME tail  sits on one physical line (no C in a, no = in b), NAME is known *)
+Theorem C10_detect_encoding : forall lookup pre a b name tail rest,
+  Forall (fun l => ~ In 10 l /\ ~ contains s_content_type (l ++ [10])) pre ->
+  ~ In 67 a -> ~ In 10 a -> b <> [] -> ~ In 61 b -> ~ In 10 (b ++ s_charset ++ name ++ tail) ->
+  name <> [] -> Forall (fun c => charset_char c = true) name ->
+  (match tail with [] => True | c :: _ => charset_char c = false end) ->
+  lookup name = true ->
+  detect_encoding lookup (flat_map (fun l => l ++ [10]) (pre ++ [a ++ s_content_type ++ b ++ s_charset ++ name ++ tail]) ++ rest) = name.
+Proof. exact detect_encoding_decl. Qed.
+Print Assumptions C10_detect_encoding.
+
+(* the whole loader of Checker.check (no retry needed): bytes -> declared charset -> text -> lines -> catalog;
+   the codec machinery is the oracle C *)
+Theorem C10_load_po_render : forall C raw enc sp c pls,
+  detect_encoding (c_lookup C) raw = enc ->
+  c_decode C (if c_ascii_compatible C enc then enc else s_ascii) raw = Some (flat_map (fun l => l ++ [10]) pls) ->
+  ascii_compatible (c_decode C enc) -> seps_ok sp -> scatalog_ok (c_decode C enc) c -> nplurals_le_10 c -> sc_entries c <> [] ->
+  file_of (render_bodies sp c) pls -> Forall (fun l => ~ In 10 l) pls ->
+  load_po C raw =
+  Ok (mkLoaded enc (mkPo (fst (catalog_value c)) (map (fun e => to_entry (tool_view e)) (snd (catalog_value c))) false), false).
+Proof. exact load_po_render. Qed.
+Print Assumptions C10_load_po_render.
+
+(* (4) arbitrary input.  polib_unescape never fails in any other way than UnicodeDecodeError (the bytes literal handed
+   to ast.literal_eval is always well formed: no SyntaxError / ValueError), for every string and every codec ... *)
+Theorem C10_unescape_total : forall dec s c, unescape dec s <> Crash c.
+Proof. exact unescape_total. Qed.
+Print Assumptions C10_unescape_total.
+
+(* ... and CPython warns on stderr exactly when the string contains \8, \9 or an octal escape above \377
+   ([bad_escape]: the structural predicate of D14): outside D14 loading is silent. *)
+Theorem C10_unescape_warned_iff_D14 : forall dec s t w, unescape dec s = Ok (t, w) -> w = bad_escape s.
+Proof. exact unescape_warned. Qed.
+Print Assumptions C10_unescape_warned_iff_D14.
+
+(* the loader of Checker.check fails only with its own two errors, whatever the bytes and whatever the codecs answer *)
+Theorem C10_load_po_no_crash : forall C raw c, load_po C raw <> Crash c.
+Proof. exact load_po_no_crash. Qed.
+Print Assumptions C10_load_po_no_crash.
 
 (* non-vacuity *)
 Definition latin1 : decoder := fun b => Some b.
@@ -148,3 +248,8 @@ Example C10_ex_D9 :   (* tokens of msgid a / msgid_plural b / msgstr[0..10] x : 
   | Ok f => map (fun e => map fst (pe_plural e)) (po_entries f) = [[0;1;2;3;4;5;6;7;8;9]]
   | _ => False end.
 Proof. vm_compute. reflexivity. Qed.
+
+Example C10_ex_bad_escape :  (* \\8 is an escaped backslash and an 8: silent; \8 and \400 warn; \377 and \18 do not *)
+  bad_escape [92;92;56] = false /\ bad_escape [92;56] = true /\ bad_escape [92;52;48;48] = true /\
+  bad_escape [92;51;55;55] = false /\ bad_escape [92;49;56] = false.
+Proof. vm_compute. repeat split; reflexivity. Qed.
